@@ -173,10 +173,10 @@ def run(ctx):
         m = ctx.rng.choice([1, 2, 3])
         k = ctx.rng.choice([1, 2, 3])
         mode = ctx.rng.choice(["lev", "lev", "hamming", "custom"])
-        seqs = nc.repertoire(ctx.rng, ctx.rng.randint(8, 30), maxmut=2, maxlen=13, families=3, same_length=(mode == "hamming" and r % 2 == 0))
+        seqs = nc.repertoire(ctx.rng, ctx.rng.randint(8, 30), maxmut=2, maxlen=13, families=(1 if r % 3 == 0 else 3), same_length=(mode == "hamming" and r % 2 == 0))
         inp = nc.make_inp("kd", mode, k, seqs, cd="hamlen" if mode == "custom" else "none", maxc=8 if mode == "custom" else nc.INF,
                           comp=ctx.rng.choice([1, 2, 5]))
-        ncpu = ctx.rng.choice([1, 1, 2, 3])
+        ncpu = ctx.rng.choice([1, 2, 3]) if r % 2 else (16, 40, 7)[r // 2 % 3]        # also far more workers than sequences
         raised, ret = None, []
         try:
             order = list(range(1, len(seqs) + 1))
@@ -222,10 +222,22 @@ def run(ctx):
             mode, cd = "lev", "none"        # one pool per call keeps the recorded session a single Fork
         real.append(real_pool_session(nn, i + 1, seqs_for(ctx.rng, n), ncpu, mode, cd, 1 + i % 2))
     verd = tcm.validate(ctx, "TraceKdPool", real, constants="  MaxTasks = 64\n  MaxCpu = 64\n  NCalls = 1\n  Deviations = {}",
-                        invariants=("ResultIsSerial", "NoStaleParams", "NoError", "ChunksPartition"))
+                        invariants=("ResultIsSerial", "NoStaleParams", "NoError", "ChunksPartition"), allow_stuck=True)
     for s in real:
         ctx.traces += 1
         ctx.case(dict(kind="real_pool", n=s["n"], ncpu=s["ncpu"], events=[e["op"] for e in s["events"]][:8]), nontrivial=s["ncpu"] > 1)
+        if verd[s["sid"]] is None:
+            # the recorded task structure is not one the KdPool machine can produce: internal drift; the API-level facts decide
+            ctx.note(f"real pool n={s['n']} ncpu={s['ncpu']}: recorded events are not a behaviour of KdPool (internal drift)")
+            last = s["events"][-1]
+            for e in s["events"]:
+                if e.get("raised"):
+                    ctx.violation(classify(s["n"], s["ncpu"], "real:raised:" + e.get("exc", "").split(":")[0]),
+                                  f"real multiprocessing kdtree n={s['n']} n_cpu={s['ncpu']} {s.get('desc')}: raised {e.get('exc', '')}"[:500], dict(kind="real_pool", session=s))
+            if last.get("equal_serial") is False:
+                ctx.violation(classify(s["n"], s["ncpu"], "real:differs_from_serial"),
+                              f"real multiprocessing kdtree n={s['n']} n_cpu={s['ncpu']} {s.get('desc')}: result differs from the n_cpu=1 result"[:500], dict(kind="real_pool", session=s))
+            continue
         for l, op, clause in tcm.failures(verd[s["sid"]]):
             if clause in ("differs_from_serial", "raised"):
                 ctx.violation(classify(s["n"], s["ncpu"], "real:" + clause + (":" + s["events"][l - 1].get("exc", "").split(":")[0] if clause == "raised" else "")),
